@@ -114,6 +114,52 @@ def depth_of(t):
     return 1 + max([depth_of(v) for v in t.values() if isinstance(v, dict)] or [0])
 
 
+def stale_state(ctx):
+    """the round trip and the identity must hold whatever rollout was asked before: calls that FAIL below the top level
+    (a non-str key, a `...` key with another value, a leaf reused as a node — at depth 1, 2, 3) on the very mapping object
+    that is then repaired and rolled out again, and on fresh mappings afterwards; many calls in a row"""
+    def attempt(m, sep):
+        try:
+            return ("ok", rollout(m, separator=sep))
+        except Exception as e:  # noqa: BLE001
+            return ("raise", type(e).__name__)
+    for sep in (".", "__", "::"):
+        def mk():
+            return {"a": {"b": {"c" + sep + "d": 1, "e": optional("x")}}, "f" + sep + "g": 2, "h": {"i" + sep + "j": {"k": 3}}}
+        want = {"a": {"b": {"c": {"d": 1}, "e": optional("x")}}, "f": {"g": 2}, "h": {"i": {"j": {"k": 3}}}}
+        nested = {"a": {"b": {"c": 1}}, "d": {"e": 2}}
+        for path in (("a",), ("a", "b"), ("h",), ("h", "i" + sep + "j")):
+            for badk, badv in ((5, 1), (..., 1), (None, 1), ((1, 2), 1)):
+                m = mk()
+                t = m
+                for k in path:
+                    t = t[k]
+                first = attempt(m, sep)
+                t[badk] = badv
+                mid = attempt(m, sep)
+                del t[badk]
+                again = attempt(m, sep)
+                fresh = attempt(mk(), sep)
+                ident = attempt(dict(nested), sep)
+                ctx.count("stale_state_sequences")
+                info = dict(separator=sep, mapping=repr(mk()), broken_at=repr(path), bad_entry=repr((badk, badv)),
+                            while_broken=repr(mid)[:200])
+                for what, got in (("the same mapping after it was repaired", again), ("a fresh equal mapping", fresh)):
+                    if first[0] != "ok" or got[0] != "ok" or not equal_mapping(got[1], want):
+                        ctx.violation("rollout(flatten(m)) != m after an earlier rollout call failed (" + what + ")",
+                                      first=repr(first)[:300], got=repr(got)[:300], **info)
+                if ident[0] != "ok" or not equal_mapping(ident[1], nested):
+                    ctx.violation("rollout of an already nested mapping is not the identity after an earlier call failed",
+                                  got=repr(ident)[:300], **info)
+        m = mk()
+        for i in range(12):       # the same object many times
+            got = attempt(m, sep)
+            if got[0] != "ok" or not equal_mapping(got[1], want):
+                ctx.violation("rollout(flatten(m)) != m on the %d-th call with the same mapping object" % (i + 1),
+                              separator=sep, mapping=repr(mk()), got=repr(got)[:300])
+                break
+
+
 def run(ctx):
     runner.prove(ctx, MODULE, THEOREMS, FILES)
     reqs, exp, info = [], [], []
@@ -172,6 +218,7 @@ def run(ctx):
         reqs.append(["rollout", encode.enc_str(sep), enc_rval(flat_d, I)])
         exp.append(encode.tostr(got))
         info.append((sep, flat_d))
+    stale_state(ctx)
     res = model.run_batch(reqs)
     bad = 0
     for r, e, (sep, flat_d) in zip(res, exp, info):
